@@ -88,7 +88,8 @@ def load(pid):
 			if os.path.exists(mp):
 				meta = json.load(open(mp))
 				if meta.get('property') == pid and meta.get('detected_by'):
-					out.append({'id': 'seeded:' + d, 'patch': os.path.join('seeded', d, 'patch.diff'), 'expect': meta['detected_by'], 'why': meta.get('summary', '')[:200]})
+					pf = 'patch.rebased.diff' if os.path.exists(os.path.join(sd, d, 'patch.rebased.diff')) else 'patch.diff'
+					out.append({'id': 'seeded:' + d, 'patch': os.path.join('seeded', d, pf), 'expect': meta['detected_by'], 'why': meta.get('summary', '')[:200]})
 	return out
 
 def run(pids, jobs=4, only=None):
